@@ -7,7 +7,8 @@
    what its write() validates and stores (Writer/Model.v). *)
 From Coq Require Import List Bool Arith.
 Import ListNotations.
-Require Import MD.Writer.Model MD.Writer.Proofs.
+Require Import MD.Writer.Model MD.Writer.Proofs MD.Writer.Dsl MD.Writer.Reflect MD.Writer.SemEq
+               MD.Writer.WriterReference MD.Gen.WriterPrograms MD.Gen.WriterProgramsChecks MD.Writer.Instances.
 
 (* ---- partition independence: any way of cutting the frames into consecutive write calls gives the file
    that one write call gives (frames, times, cells as md.load returns them) *)
@@ -141,6 +142,65 @@ Theorem write_through_durable_partial : forall ops img,
   (forall ops1 ids ops2, ops = ops1 ++ DWrite ids :: ops2 -> exists r, img = written ops1 ++ ids ++ r).
 Proof. exact auto_flush_durable. Qed.
 Print Assumptions write_through_durable_partial.
+
+(* ---- reflection over the write() methods themselves (Writer/Dsl.v; programs regenerated from /repo by the
+   translator of harness/props/C19.py into Gen/WriterPrograms.v on every run) *)
+
+(* a write() whose schema tests all precede its first mutation refuses atomically — for EVERY program the checker
+   accepts, every lawful storage backend, every call and every file state *)
+Theorem validates_before_mutation_atomic : forall (S : Type) (bk : backend S) (p : wprog),
+  backend_ok bk -> check_vbm p = true ->
+  forall b st, fst (sem bk p b st) = Refused -> snd (sem bk p b st) = st.
+Proof. exact @vbm_refused_atomic. Qed.
+Print Assumptions validates_before_mutation_atomic.
+
+(* a write() that tests every field of its API refuses every call whose schema differs from the file's *)
+Theorem schema_complete_ragged_refused : forall (S : Type) (bk : backend S) (api : list field) (p : wprog),
+  backend_ok bk -> check_complete api p = true ->
+  forall b st s f, In f api -> bk_schema bk st = Some s -> differs Both f b s = true ->
+    (requires f p = true -> s_has f s = true) ->
+    fst (sem bk p b st) = Refused.
+Proof. exact @complete_ragged_refused. Qed.
+Print Assumptions schema_complete_ragged_refused.
+
+(* today's sources: all eleven write() methods validate before they mutate *)
+Theorem mdtraj_write_methods_refuse_atomically : forall n p api, In (n, p, api) writers ->
+  forall (S : Type) (bk : backend S), backend_ok bk ->
+  forall b st, fst (sem bk p b st) = Refused -> snd (sem bk p b st) = st.
+Proof. exact mdtraj_writers_refuse_atomically. Qed.
+Print Assumptions mdtraj_write_methods_refuse_atomically.
+
+(* ... and their meaning is the model the theorems above speak about: the repaired HDF5 and NetCDF writers, and
+   [swrite] with the policy READ OFF the program (pol_of) for the nine append-only writers *)
+Theorem hdf5_write_program_is_model : forall h, run (sem h5_bk h5_write) h h5init = run h5_fix h h5init.
+Proof. exact h5_program_is_model. Qed.
+Print Assumptions hdf5_write_program_is_model.
+
+Theorem netcdf_write_program_is_model : forall h, run (sem nc_bk nc_write) h ncinit = run nc_fix h ncinit.
+Proof. exact nc_program_is_model. Qed.
+Print Assumptions netcdf_write_program_is_model.
+
+Theorem append_only_write_programs_are_models :
+  stream_model pol_xdr xtc_write /\ stream_model pol_xdr trr_write /\ stream_model pol_dcd dcd_write /\
+  stream_model pol_mdcrd mdcrd_write /\ stream_model pol_xyz xyz_write /\ stream_model pol_lammpstrj lammpstrj_write /\
+  stream_model pol_gro gro_write /\ stream_model pol_pdb pdb_write /\ stream_model pol_dtr dtr_write.
+Proof. exact stream_programs_are_models. Qed.
+Print Assumptions append_only_write_programs_are_models.
+
+(* the checkers' verdict on hdf5.py / netcdf.py / mdcrd.py as they were before the fix: commits, and on a program
+   with a mutation moved in front of a validation (which really is not atomic) *)
+Theorem write_methods_as_found_rejected_refuted :
+  check_vbm h5_write_asfound = false /\ check_vbm nc_write_asfound = false /\
+  check_complete [FAtoms; FCell] mdcrd_write_asfound = false /\
+  check_vbm WriterReference.h5_write = true /\ check_vbm WriterReference.nc_write = true /\
+  check_complete [FAtoms; FCell] WriterReference.mdcrd_write = true.
+Proof. exact asfound_verdicts. Qed.
+Print Assumptions write_methods_as_found_rejected_refuted.
+
+Theorem reordered_program_rejected_and_not_atomic : check_vbm reordered = false /\
+  exists b st, fst (sem h5_bk reordered b st) = Refused /\ snd (sem h5_bk reordered b st) <> st.
+Proof. exact checker_rejects_reordered. Qed.
+Print Assumptions reordered_program_rejected_and_not_atomic.
 
 (* ---- non-vacuity: a partition with several parts, a ragged history, a crash with buffered frames *)
 Example hypotheses_satisfiable :
